@@ -1334,6 +1334,19 @@ func (cx *Ctx) checkBCE(r *Report, scope map[*ssa.Function]bool) {
 			r.Fail("R-BCE", okey, pos, "the bounds check of this index expression cannot be proven ("+why+"): an input with fewer elements panics with index out of range")
 		}
 	}
+	// accesses whose check provably fails (not listed by the compiler)
+	for _, fn := range w.sortedFuncs(scope) {
+		for _, b := range fn.Blocks {
+			for _, in := range b.Instrs {
+				switch in.(type) {
+				case *ssa.IndexAddr, *ssa.Index:
+					if cx.bceAlwaysFails(in) {
+						r.Fail("R-BCE", w.FuncKey(fn)+":always-out-of-range@"+w.InstrPos(in), w.InstrPos(in), "the comparisons that dominate this index expression contradict its bounds check: whenever it is reached it panics with index out of range")
+					}
+				}
+			}
+		}
+	}
 	r.Extra["bce_reports"] = nReports
 	r.Extra["bce_user_sites"] = nUser
 	r.Ok("R-BCE", "compiler-facts", "", fmt.Sprintf("%d unproven bounds checks reported by the compiler for the module, %d on index/slice expressions of handler-reachable code", nReports, nUser))
